@@ -241,7 +241,10 @@ struct Chars {
                 if (Tq != 0 && sgn(Tq) != sgn(V)) return o.fail(cause + "sign-mismatch", "\"" + text + "\" for " + qstr(V));
                 if (abs(Tq) > abs(V)) return o.fail(cause + "magnitude-exceeds-value", "\"" + text + "\" for " + qstr(V));
                 mpq_class ulp = qpow(10, e10 - fd);
-                mpq_class slack = ulp + abs(V) * qpow(10, -16);
+                // allowance for the documented int64-significand limit: each lossy step of descale loses less than one unit of a
+                // significand that is kept above INT64_MAX/100 (relative 1.1e-17): at most ~70 halvings for negative exponents (1e-16 in
+                // total), and for positive exponents up to 70 about 22 divisions by ten interleaved with the doublings (5e-16 in total)
+                mpq_class slack = ulp + abs(V) * (SI::exponent > 0 ? mkq(5) * qpow(10, -16) : qpow(10, -16));
                 if (abs(V) - abs(Tq) >= slack) return o.fail(cause + "not-within-one-unit-of-last-digit", "\"" + text + "\" for " + qstr(V));
                 mpz_class m;
                 long e = 0;
